@@ -274,6 +274,37 @@ func (r *Report) writeEvidence(discharged, violations, knownHits, distinct int) 
 		"samples":             samples,
 		"notes":               r.Notes,
 	}
+	// every rule that was applied, with the number of obligations it produced and the first constructs it was applied
+	// to (rules added after the explanation above was written appear here as well)
+	type ruleSum struct {
+		Obligations int      `json:"obligations"`
+		Constructs  []string `json:"constructs"`
+	}
+	byRule := map[string]*ruleSum{}
+	for _, o := range r.Obs {
+		rs := byRule[o.Rule]
+		if rs == nil {
+			rs = &ruleSum{}
+			byRule[o.Rule] = rs
+		}
+		rs.Obligations++
+		if len(rs.Constructs) < 6 {
+			c := o.Construct
+			if len(c) > 220 {
+				c = c[:220] + "…"
+			}
+			dup := false
+			for _, x := range rs.Constructs {
+				if x == c {
+					dup = true
+				}
+			}
+			if !dup {
+				rs.Constructs = append(rs.Constructs, c)
+			}
+		}
+	}
+	cov["rules_applied"] = byRule
 	for k, v := range r.Extra {
 		cov[k] = v
 	}
